@@ -156,6 +156,26 @@ EXTRA4 = {
  "C19": " Patterns made smaller after their notes existed; cells addressed from the end.",
  "C20": " reflect() queries leave windows and directions as they were; every third project is a falsy application subclass.",
 }
+# round 12
+EXTRA6 = {
+ "C01": " Saves go into positioned streams (behind a header, append mode, r+b).",
+ "C02": " Saves into positioned streams; MetaModules whose mapped embedded modules were taken out by hand.",
+ "C03": " Projects whose module / pattern lists were edited by hand.",
+ "C05": " State a save does not write (hidden labels, directly edited tables) is left alone.",
+ "C08": " Saves into positioned streams.",
+ "C09": " An application type's own ranges are widened in place first; aliases after relabelling.",
+ "C10": " Options arriving through load_chunk on an attached MetaModule; refused assignments leave value and stored form.",
+ "C11": " Records with both members of an exclusive pair on.",
+ "C12": " Songs with several patterns of equal header; sub-field setters on attached notes.",
+ "C13": " The hostile phase also passes type names as strings and loads an oversized embedded project.",
+ "C14": " Positions emptied by hand (unwired modules), then attachments and re-attachments.",
+ "C15": " Exposed controllers onto unstored targets with absolute expectations; every controller inside a loaded MetaModule edited.",
+ "C16": " Instruments loaded / cloned twice; samples of exact power-of-two sizes.",
+ "C17": " Files that spell out defaults, loaded twice and edited in place.",
+ "C18": " Non-boolean settings; files locked by another handle.",
+ "C19": " The callable attaches the pattern during the edit.",
+ "C20": " Targets of extended types; bundles reloaded with freed in-links.",
+}
 # round 11
 EXTRA5 = {
  "C01": " One Sample object may serve two slots.",
@@ -179,4 +199,4 @@ EXTRA5 = {
  "C20": " Bundles inside a MetaModule that exposes the target; bundles that drive bundles; wide windows on unscaled targets after failed loads.",
 }
 for _pid in CHECKS:
-    CHECKS[_pid]["text"] += EXTRA.get(_pid, "") + EXTRA2.get(_pid, "") + EXTRA3.get(_pid, "") + EXTRA4.get(_pid, "") + EXTRA5.get(_pid, "") + " In half of the shards the process has seen a few loads fail before the workload starts." + " A few shards of every run are replayed with DEBUG logging and under python -O, -W error and -bb."
+    CHECKS[_pid]["text"] += EXTRA.get(_pid, "") + EXTRA2.get(_pid, "") + EXTRA3.get(_pid, "") + EXTRA4.get(_pid, "") + EXTRA5.get(_pid, "") + EXTRA6.get(_pid, "") + " In half of the shards the process has seen a few loads fail before the workload starts." + " A few shards of every run are replayed with DEBUG logging and under python -O, -W error and -bb."
